@@ -34,7 +34,7 @@ From FB.Spec Require Import Prog.
 From FB.Model Require Import Types Monad CreatedFiles SimpleOps Builder Persist Build Run Frame.
 From FB.Spec Require Import Ref Oracle Faithful.
 From FB.Model Require Import Core CoreOracle CoreCache.
-From FB.Proofs Require Import ReplayLaws BuildFileLaws FrameLaws CleanLaws CoreLaws2 CoreLaws5 CoreLaws6 CoreLaws7 CoreNextDefs CoreNextThm ViewDefs ViewInit ViewXDefs ViewXRun ViewR2 ViewR3 ViewK3 ViewK4 ViewK8 HashMemoInv HashMemoRun SimA0 SimAMain SimC0 SimC12 SimC13 SimD4 SimD9 RollbackLaws RollbackDirsLaws.
+From FB.Proofs Require Import ReplayLaws BuildFileLaws FrameLaws CleanLaws CoreLaws2 CoreLaws5 CoreLaws6 CoreLaws7 CoreNextDefs CoreNextThm ViewDefs ViewInit ViewXDefs ViewXRun ViewR2 ViewR3 ViewK3 ViewK4 ViewK8 HashMemoInv HashMemoRun SimA0 SimAMain SimC0 SimC12 SimC13 SimD4 SimD9 SimE3 SimG1 SimG5 SimG6 RollbackLaws RollbackDirsLaws.
 (* T1g: Model/BuildDirs.v and Model/CreatedFiles.v are equal to the translation of build_dirs.py / created_files.py
    (Gen/BookGen.v, regenerated on every run); a change of those sources that the model does not follow breaks this import *)
 From FB.Proofs Require BookGenLaws.
@@ -106,8 +106,8 @@ Proof. exact build_agree_norec. Qed.
    okc (decidable: okcb) - faithful, well formed, METADATA comparisons and reads only, no recorded get_size, no nested
    record that raised, recorded mtimes not after the start of the build - and every program satisfying the side
    conditions.  Up to the return of the root function; C01_mechanism_first_build_whole_build (SimD4.v) covers the whole
-   call including the commit for every first build; for later builds SimD9.mech_commit2 does the same relative to one
-   statement about directories the previous cache records (SimD9.err_dead_statement, not proved).  That the class is re-established by every build is proved for its
+   call including the commit for every first build; for later builds with a previous cache of the class okc
+   C01_mechanism_later_build_whole_build (SimD9.v, SimE3.v) does the same.  That the class is re-established by every build is proved for its
    static part (SimC14/15) and checked by computation on a 4-build history (SimCEx.v). *)
 Theorem C01_mechanism_transparent : forall (kp : kappa) (F : ftable) w cachefile old nm svers root w1 w2 r l,
   Obeys F root -> Respects F ->
@@ -128,7 +128,8 @@ Theorem C01_mechanism_transparent : forall (kp : kappa) (F : ftable) w cachefile
 Proof. exact mech_C01. Qed.
 
 (* the WHOLE build() call of a first build (no cache file yet), commit included: the value returned is the reference
-   value and the tree it leaves equals the reference tree (every path except the cache file) up to mtime/inode *)
+   value and the tree it leaves equals the reference tree (every path except the cache file) up to mtime/inode; any
+   comparison mode (METADATA or HASH) for outputs and reads (SimG1-6.v) *)
 Theorem C01_mechanism_first_build_whole_build : forall (kp : kappa) (F : ftable) w cachefile nm vers svers root (P : path -> Prop) w' v,
   let old := empty_cache nm svers in
   lookup (w_fs w) cachefile = None ->
@@ -138,20 +139,20 @@ Theorem C01_mechanism_first_build_whole_build : forall (kp : kappa) (F : ftable)
   fs_wf (w_fs w) -> w_faults w = [] ->
   path_ok (dirname cachefile) = true -> (maxlen (w_fs w) < walk_fuel)%nat ->
   vdir (Build.start_world w cachefile old nm svers) (dirname cachefile) = true ->
-  AllTargets tgtP root -> NoNest [] root -> QueriesOk root -> WfArgs root -> CmpMeta root ->
+  AllTargets tgtP root -> NoNest [] root -> QueriesOkP root -> WfArgs root ->
   AllTargets P root -> (forall p, P p -> tgtP p) ->
   (forall a t, (P t \/ t = cachefile) -> below a t = true -> (forall f, lookup (w_fs w) a <> Some (NFile f)) /\ ~ P a) ->
   run_build cachefile nm vers root w = (w', Done (inl v)) ->
   let rr := ref_build (w_fs w) cachefile (prev_of_cache old) (w_clock w) (w_nextid w) root in
   rr_outcome rr = inl v /\
   forall p, p <> cachefile -> node_equiv (lookup (w_fs w') p) (lookup (rr_tree rr) p).
-Proof. exact mech_commit_first_build. Qed.
+Proof. exact mech_commit_first_build_anycmp. Qed.
 
 (* the same for a LATER build, whose previous cache is in the class okc (what a committed build of this package writes):
-   whole call, commit included.  The last hypothesis before the run is the one statement still open
-   (SimD9.err_dead_statement: the directories of the previous cache that a failed nested build gave up are dead at
-   the end of the run); it is a hypothesis here, not an assumption of the development. *)
-Theorem C01_mechanism_later_build_whole_build_partial : forall (kp : kappa) (F : ftable) w cachefile nm vers svers root (P : path -> Prop) w' v,
+   whole call, commit included (SimD5-9.v; the statement about directories given up by failed nested builds that
+   SimD9 left open is proved in SimE1-3.v: err_dead).  CmpOk old root (SimG1.v): an output may use HASH when the
+   previous cache has no servable record for its path; reads may use either mode (QueriesOkP, SimG5.v). *)
+Theorem C01_mechanism_later_build_whole_build : forall (kp : kappa) (F : ftable) w cachefile nm vers svers root (P : path -> Prop) w' v,
   let old := old_cache_of (w_fs w) cachefile nm svers in
   let rr := ref_build (w_fs w) cachefile (prev_of_cache old) (w_clock w) (w_nextid w) root in
   sanitize vers = Some svers ->
@@ -167,19 +168,17 @@ Theorem C01_mechanism_later_build_whole_build_partial : forall (kp : kappa) (F :
   path_ok (dirname cachefile) = true -> isdir (w_fs w) cachefile = false -> (maxlen (w_fs w) < walk_fuel)%nat ->
   vdir (Build.start_world w cachefile old nm svers) (dirname cachefile) = true ->
   (* the program *)
-  AllTargets tgtP root -> NoNest [] root -> QueriesOk root -> WfArgs root -> CmpMeta root ->
+  AllTargets tgtP root -> NoNest [] root -> QueriesOkP root -> WfArgs root -> CmpOk old root ->
   TargetsClear old root -> TargetsApart old root ->
   (* the targets *)
   AllTargets P root -> (forall p, P p -> tgtP p) ->
   (forall a t, (P t \/ t = cachefile \/ In t (cache_targets old)) ->
      below a t = true -> (forall f, lookup (w_fs w) a <> Some (NFile f)) /\ ~ P a) ->
   (forall d, In d (c_dirs old) -> path_ok d = true) ->
-  (* the end of the run, when the previous cache records directories *)
-  (c_dirs old <> [] -> ErrDeadInv cachefile nm svers root w) ->
   run_build cachefile nm vers root w = (w', Done (inl v)) ->
   rr_outcome rr = inl v /\
   forall p, p <> cachefile -> node_equiv (lookup (w_fs w') p) (lookup (rr_tree rr) p).
-Proof. exact mech_commit2. Qed.
+Proof. exact mech_commit3_h. Qed.
 
 (* the hypotheses are satisfiable: a content oracle read off the tree, and a concrete instance
    (a previous cache, a tree on which the replay succeeds) *)
